@@ -734,6 +734,9 @@ class CDSInterval(AbstractFeatureInterval):
                 rel_start += frame.value
                 # remove trailing codon from previous block
                 shift = sum((coords[1] - coords[0] for coords in zip(cleaned_rel_starts, cleaned_rel_ends))) % 3
+                # the dangling codon can be longer than the previous block (1bp exons): trim it across as many blocks as it spans
+                while shift > 0 and cleaned_rel_ends[-1] - cleaned_rel_starts[-1] < shift:
+                    shift -= cleaned_rel_ends.pop() - cleaned_rel_starts.pop()
                 if shift > 0:
                     # it may be possible for this shift to end up producing a 0bp block
                     # this will be dropped in the list comprehension below that generates the cleaned_blocks
